@@ -58,14 +58,12 @@ def setVal (s : MState) (key : Bytes) (v : Val) : MState :=
         if m'.oid = m.oid ∧ m'.value.isSome then (k, { m' with value := some v }) else (k, m'),
       disk := s.disk.map fun (k, e) => if e.oid = m.oid then (k, { e with val := v }) else (k, e) }
 
-/-- mutate `m.key.Expiration`; the in-memory backend's entries hold the same *ds.Key -/
+/-- mutate `m.key.Expiration` -/
 def setExp (s : MState) (key : Bytes) (e : Int) : MState :=
   match getMeta s key with
   | none => s
   | some m =>
-    let s := putMeta s key { m with exp := e }
-    if s.pebble ∨ m.kid = 0 then s else
-    { s with disk := s.disk.map fun (k, d) => if d.kid = m.kid then (k, { d with exp := e }) else (k, d) }
+    putMeta s key { m with exp := e }
 def expOf (s : MState) (key : Bytes) : Int := ((getMeta s key).map (·.exp)).getD 0
 
 /-- `tx.commit()`: the call's locks are released (between the separate transactions of one command) -/
@@ -80,7 +78,9 @@ def strVal : DsStr.S → Val
 def del (s : MState) (now : Int) (keys : List Bytes) : R :=
   let (s, c) := keys.foldl (fun (acc : MState × Int) key =>
     let (s, ok) := writeKey acc.1 now key none
-    if !ok then (s, acc.2) else (delKey s key, acc.2 + 1)) (s, 0)
+    if !ok then (s, acc.2) else
+    -- unlink, then signalModifiedKey(key, meta) on the unlinked record: watchers of the name are told
+    (emit { delKey s key with signalled := key :: s.signalled } { typ := 2, key := key }, acc.2 + 1)) (s, 0)
   (s, .int c)
 
 def exists_ (s : MState) (now : Int) (keys : List Bytes) : R :=
@@ -206,7 +206,8 @@ def rename (s : MState) (now : Int) (key dst : Bytes) : R :=
       if !dok then
         -- dstMeta is an empty record; give it a key object carrying the source's deadline and publish it
         let (kid, s) := fresh s
-        -- (an expired / unreadable record still indexed under dst is replaced)
+        -- (an expired / unreadable record still indexed under dst is replaced, with its backend entry)
+        let s := match getMeta s dst with | some dead => unpersist s dst dead | none => s
         putMeta s dst { exp := m.exp, value := none, kid := kid }
       else s
     -- dstMeta.setValue(meta.value): shares the source's value object
@@ -231,6 +232,7 @@ def renameNX (s : MState) (now : Int) (key dst : Bytes) : R :=
     let (kid, s) := fresh s
     let d : Meta := { exp := m.exp, value := none, kid := kid, oid := m.oid }
     let d := match m.value with | some v => d.setValue v | none => d
+    let s := match getMeta s dst with | some dead => unpersist s dst dead | none => s
     let s := putMeta s dst d.markModified
     let s := { s with signalled := dst :: key :: s.signalled }
     (emit s { typ := 32, key := key, args := [Bytes.toHex dst] }, .err false)
@@ -308,20 +310,21 @@ def getSet (s : MState) (now : Int) (key value : Bytes) : R :=
 
 def setEX (s : MState) (now : Int) (key value : Bytes) (seconds : Int) : R :=
   let (s, _) := writeKey s now key (some .strNil)
-  let s := setExp s key (wrap64 (now + wrap64 (seconds * 1000)))
   match asStr s key with
   | none => (s, .panic)
   | some _ =>
     let s := setVal s key (.str value)
+    let s := setExp s key (wrap64 (now + wrap64 (seconds * 1000)))
     (emit (signal s key) (opSet key value false (expOf s key)), .unit)
 
 def setPX (s : MState) (now : Int) (key value : Bytes) (ms : Int) : R :=
   let (s, _) := writeKey s now key (some .strNil)
-  let s := setExp s key (wrap64 (now + ms))
-  let s := emit (signal s key) (opSet key value false (expOf s key))
   match asStr s key with
   | none => (s, .panic)
-  | some _ => (setVal s key (.str value), .unit)
+  | some _ =>
+    let s := setVal s key (.str value)
+    let s := setExp s key (wrap64 (now + ms))
+    (emit (signal s key) (opSet key value false (expOf s key)), .unit)
 
 def setNX (s : MState) (now : Int) (key value : Bytes) (keepTTL : Bool) : R :=
   let (s, ok) := writeKey s now key none
@@ -1110,8 +1113,9 @@ def zinterCore (s : MState) (now : Int) (keys : List Bytes) (weights : List F64)
             match js with
             | [] => (s, some true)
             | (o, j) :: more =>
-              let (s, _) := readKey s now o
+              let (s, ok) := readKey s now o
               if j = i then inner more s m else
+              if !ok then (s, none) else           -- missing / expired operand: nil value, the assertion panics
               match asZSet s o with
               | none => (s, none)
               | some oz => if DsZSet.zExists oz m then inner more s m else (s, some false)
